@@ -81,6 +81,18 @@ fn gen_band<T: Elem>(src: &mut Src, n: usize, m1: usize, m2: usize, pattern: &st
                 }
             }
         }
+        "pivot-order" => {
+            for j in 0..n {
+                let rows: Vec<usize> = (0..n).filter(|&i| i >= j && in_band(i, j, m1, m2)).collect();
+                let perm = src.permutation(rows.len());
+                for (k, &i) in rows.iter().enumerate() {
+                    // exact types: 1, 2, 3, ...; floats: 1, 2^-18, 2^-36, ... (a pivot that is not the largest
+                    // candidate then shows as element growth of 2^18 and more)
+                    let mag = if T::EXACT { T::from_int(1 + perm[k] as i64) } else { T::from_int(1).scale2(-18 * perm[k] as i32) };
+                    a[i][j] = if src.coin() { mag } else { -mag };
+                }
+            }
+        }
         "singular" => match src.below(3) {
             0 => {
                 let c = src.usize_below(n);
@@ -142,7 +154,12 @@ fn run_t<T: Elem>(case: &mut Case) -> Result<Outcome, String> {
     let n = 1 + case.src.usize_below(10);
     let m1 = case.src.usize_below(n);
     let m2 = case.src.usize_below(n);
-    let pattern = PATTERNS[case.src.below(if T::EXACT { 6 } else { 7 }) as usize];
+    let mut pattern = PATTERNS[case.src.below(if T::EXACT { 6 } else { 7 }) as usize];
+    // half of the "mixed" cases: all candidates of a pivot column have pairwise different magnitudes in a random
+    // order, so that the pivot search is decided by comparing every candidate with the running maximum
+    if pattern == "mixed" && case.src.coin() {
+        pattern = "pivot-order";
+    }
     let a0 = gen_band::<T>(&mut case.src, n, m1, m2, pattern);
     // float types: the whole system may live at a very small or very large scale (exact power of two)
     let gk: i32 = if !T::EXACT && case.src.below(3) == 0 { case.src.small_int(80) as i32 } else { 0 };
@@ -258,7 +275,8 @@ fn run_t<T: Elem>(case: &mut Case) -> Result<Outcome, String> {
                 left -= step;
             }
             let err = refla::cabs(refla::csub(dsc.to_c(), T::x_to_c(det_x)));
-            let unit = (n * n * n) as f64 * EPS * info.growth.max(1.0) * hadamard(&ac0);
+            // (pivot-order matrices have rows of very different size: see util::hadamard_gepp)
+            let unit = (n * n * n) as f64 * EPS * info.growth.max(1.0) * if pattern == "pivot-order" { hadamard_gepp(&ac0) } else { hadamard(&ac0) };
             if unit > 0.0 {
                 crate::calib::note("c04.det err/(n^3 eps rho H)", err / unit, || format!("{} {} n={}", T::NAME, pattern, n));
             }
@@ -393,7 +411,7 @@ impl Prop for C04 {
     }
     fn rule(&self) -> String {
         "stream prefix (element type in {rat,f64,cmplx}, n in 1..=10, m1 in 0..n, m2 in 0..n): all 3*385 configurations are enumerated in every run \
-         (several random value tails each) and additionally sampled at random; value pattern in {mixed sign, negative diagonal, zero diagonal with non-zero \
+         (several random value tails each) and additionally sampled at random; value pattern in {mixed sign, pivot-order (pairwise different magnitudes among the candidates of every pivot column, random order and signs), negative diagonal, zero diagonal with non-zero \
          sub-diagonal, tiny positive sub-diagonal under an O(1) negative diagonal, singular (zero column / zero row / proportional columns), positive, continuous(floats)}; \
          every matrix is built twice with two different padding values; float systems are additionally scaled as a whole by 2^k, |k| <= 80, with probability 1/3. Index read-back, &B*&v and B*v vs the dense product, det vs the exact determinant \
          (fraction elimination), solve on every nonsingular system (A x == b exactly over rat; backward error bound over floats), independence of the padding, \
